@@ -17,19 +17,29 @@ def get_type_layout(
 ) -> Tuple[Optional[Dict[str, str]], Optional[Dict[str, str]], Dict[int, str]]:
     reserved = set()
     path_to_key = {}
-    for i, (bin_path, arg) in enumerate(flat_args):
+    keys: List[Optional[str]] = []
+    for bin_path, arg in flat_args:
         key = arg.field_name
         if key is None and not entrypoints:
             key = arg.type_name
         if key is not None and key not in reserved:
             reserved.add(key)
-            path_to_key[bin_path] = key
         else:
             assert entrypoints is False, f'duplicate key {key}'
-            path_to_key[bin_path] = f'{arg.prim}_{i}'
+            key = None
+        keys.append(key)
+    is_named = len(reserved) > 0
+    for i, (bin_path, arg) in enumerate(flat_args):
+        key = keys[i]
+        if key is None:
+            key = f'{arg.prim}_{i}'
+            while key in reserved:  # an annotation may have the form of a generated name
+                key += '_'
+            reserved.add(key)
+        path_to_key[bin_path] = key
 
     idx_to_path = dict(enumerate(path_to_key))
-    if len(reserved) == 0 and infer_names is False and entrypoints is False:
+    if not is_named and infer_names is False and entrypoints is False:
         path_to_key = None  # type: ignore
         key_to_path = None
     else:
